@@ -45,7 +45,7 @@ FILES = {
     "notes.txt": "not modelica\n",
 }
 PATH_OF = {"dirGood": "lib", "fileGood": "solo/Solo.mo", "dirTwin": "twin", "fileSyntax": "broken/Syn.mo",
-           "fileListener": "broken2/Dup.mo", "notMo": "notes.txt", "dirEmpty": "empty", "missing": "does_not_exist"}
+           "fileListener": "broken2/Dup.mo", "notMo": "notes.txt", "dirEmpty": "empty", "missing": "does_not_exist", "missing2": "lib/Nothing.mo"}
 MODELS = ["Leaf", "Mid", "Top", "Dot", "Solo", "Twin", "Bad", "Nope"]
 # calibrated on the unchanged tree: each of these leaves every good model of the tree compilable with -t casadi
 VALID_OPTS = ["detect_aliases=true", "replace_constant_values=False", "expand_vectors=true", "reduce_affine_expression=TRUE",
